@@ -65,11 +65,13 @@ def body_c12(tier, seed, rep, only_prop=False, scale=1):
                 r1 = r0 + 1.0
         c = rng.random() < 0.3
         s = LinearScale().domain([a, b]).range([r0, r1]).clamp(c)
+        via = rng.choice(["call", "scale"])        # `s(x)` and `s.scale(x)` are the two public ways to apply a scale
+        ev = s.scale if via == "scale" else s
         lo, hi = min(a, b), max(a, b)
         for x in (a, b, rng.uniform(lo, hi), hi + rng.uniform(0, 2) * (hi - lo), lo - rng.uniform(0, 2) * (hi - lo)):
-            meta = {"kind": "lin", "a": a, "b": b, "r0": r0, "r1": r1, "clamp": c, "x": x}
+            meta = {"kind": "lin", "a": a, "b": b, "r0": r0, "r1": r1, "clamp": c, "x": x, "via": via}
             try:
-                y = s(x)
+                y = ev(x)
                 xinv = s.invert(y)
             except Exception as e:
                 rep.prop_fail.append(("linear scale raised %s: %s" % (type(e).__name__, e), {"case": meta})); continue
@@ -195,10 +197,24 @@ def run_history(ops):
         else:
             objs.append(s.copy()); enc.append("copy:%d" % op[1])
     obs = []
-    for s in objs:
+    for k, s in enumerate(objs):
         d, r = s.domain(), s.range()
-        obs.append("%s:%s:%s:%s:%s:%s:%s" % (fr(d[0]), fr(d[1]), fr(r[0]), fr(r[1]), fr(bool(s.clamp())), fr(s(d[0])), fr(s(d[1]))))
+        ev = s.scale if k % 2 else s         # the two public ways to apply a scale; the first evaluation after the history goes through either
+        obs.append("%s:%s:%s:%s:%s:%s:%s" % (fr(d[0]), fr(d[1]), fr(r[0]), fr(r[1]), fr(bool(s.clamp())), fr(ev(d[0])), fr(ev(d[1]))))
     return "lhist|%s|%s" % (";".join(enc), ";".join(obs))
+
+
+def apply_pre(s, pre):
+    """what happens to COPIES of a scale (and read-only questions to the scale itself) before the judged call"""
+    for op in pre or []:
+        if op[0] == "copy-nice":
+            s.copy().nice(op[1])
+        elif op[0] == "copy-domain":
+            s.copy().domain([op[1], op[2]])
+        elif op[0] == "copy-ticks":
+            list(s.copy().ticks(op[1]))
+        elif op[0] == "ticks":
+            list(s.ticks(op[1]))
 
 
 # -------------------------------------------------------------------------------------------- C13
@@ -280,9 +296,15 @@ def body_c14(tier, seed, rep, only_prop=False, scale=1):
         a, b = gen_lin_domain(rng)
         m = pick_m(rng)
         meta = {"kind": "lnice", "a": a, "b": b, "m": m}
+        if rng.random() < 0.2:
+            # before the judged call, COPIES of the scale are used (made nice with another count, given another domain, asked for ticks):
+            # what a copy does is its own business
+            meta["pre"] = [rng.choice([("copy-nice", rng.choice([2, 5, 1, 20])), ("copy-domain", a - 3.5, b * 2 + 1), ("copy-ticks", rng.choice([3, 10])),
+                                       ("ticks", rng.choice([3, 10]))]) for _ in range(rng.choice([1, 1, 2]))]
         try:
             with time_limit(10):
                 s = LinearScale().domain([a, b])
+                apply_pre(s, meta.get("pre"))
                 s.nice(m) if m is not None else s.nice()
                 d = s.domain()
         except Exception as e:
@@ -296,9 +318,12 @@ def body_c14(tier, seed, rep, only_prop=False, scale=1):
             d1 = d0 + 200 * 365 * T.DAY if d0 + 200 * 365 * T.DAY < T.HI else d0 - 200 * 365 * T.DAY
         m = rng.choice([None, None, 10, 2, 3, 5, 7, 12, 20, 50])
         meta = {"kind": "tnice", "d0": d0, "d1": d1, "m": m}
+        if rng.random() < 0.15:
+            meta["pre"] = [rng.choice([("copy-nice", rng.choice([2, 5, 20])), ("copy-ticks", rng.choice([3, 10])), ("ticks", rng.choice([3, 10]))]) for _ in range(rng.choice([1, 1, 2]))]
         try:
             with time_limit(10):
                 s = TimeScale().domain([T.to_dt(d0), T.to_dt(d1)])
+                apply_pre(s, meta.get("pre"))
                 s.nice(m) if m is not None else s.nice()
                 d = s.domain()
         except Exception as e:
@@ -364,7 +389,7 @@ def replay_case(pid, replay):
     k = m["kind"]
     if k == "lin":
         s = LinearScale().domain([m["a"], m["b"]]).range([m["r0"], m["r1"]]).clamp(m["clamp"])
-        y = s(m["x"])
+        y = s.scale(m["x"]) if m.get("via") == "scale" else s(m["x"])
         line = "lin|%s|%s|%s|%s|%s|%s|%s|%s" % (fr(m["clamp"]), fr(m["a"]), fr(m["b"]), fr(m["r0"]), fr(m["r1"]), fr(m["x"]), fr(y), fr(s.invert(y)))
     elif k == "linmono":
         s = LinearScale().domain([m["a"], m["b"]]).range([m["r0"], m["r1"]]).clamp(m["clamp"])
@@ -381,11 +406,13 @@ def replay_case(pid, replay):
         line = "lticks|%s|%s|%s|%s|%s" % (fr(d[0]), fr(d[1]), fr(10 if m["m"] is None else m["m"]), ",".join(fr(t) for t in tk), ";".join(texts))
     elif k == "lnice":
         s = LinearScale().domain([m["a"], m["b"]])
+        apply_pre(s, m.get("pre"))
         s.nice(m["m"]) if m["m"] is not None else s.nice()
         d = s.domain()
         line = "lnice|%s|%s|%s|%s|%s" % (fr(m["a"]), fr(m["b"]), fr(10 if m["m"] is None else m["m"]), fr(d[0]), fr(d[1]))
     else:
         s = TimeScale().domain([T.to_dt(m["d0"]), T.to_dt(m["d1"])])
+        apply_pre(s, m.get("pre"))
         s.nice(m["m"]) if m["m"] is not None else s.nice()
         d = s.domain()
         line = "tnice|%d|%d|%s|%s|%s" % (m["d0"], m["d1"], fr(10 if m["m"] is None else m["m"]), fr(T.to_ms(d[0])), fr(T.to_ms(d[1])))
